@@ -66,7 +66,7 @@ var poolCandidates = []int{5, 6, 7, 10, 11, 12, 28, 29, 8, 9, 13, 14, 1, 30, 31,
 
 // Weights of the constructs a profile emits.
 type Weights struct {
-	Alu, Div, Load, Store, Branch, Jump, Call, Loop, Walk, Nop, EvictReread int
+	Alu, Div, Load, Store, Branch, Jump, Call, Loop, Walk, Nop, EvictReread, Behind int
 }
 
 // Profile parameterises the program builder.
@@ -725,8 +725,13 @@ func min32(a, b int32) int32 {
 // Construct emits one top-level construct chosen by the profile weights.
 func (b *Builder) Construct() {
 	w := b.P.W
-	total := w.Alu + w.Div + w.Load + w.Store + w.Branch + w.Jump + w.Call + w.Loop + w.Walk + w.EvictReread
+	total := w.Alu + w.Div + w.Load + w.Store + w.Branch + w.Jump + w.Call + w.Loop + w.Walk + w.EvictReread + w.Behind
 	x := rapid.IntRange(0, total-1).Draw(b.t, "construct")
+	if x >= total-w.Behind {
+		b.Behind()
+		return
+	}
+	total -= w.Behind
 	if x >= total-w.EvictReread {
 		b.EvictReread()
 		return
@@ -773,15 +778,62 @@ func (b *Builder) Exit() {
 func Program(t *rapid.T, p Profile) *Case {
 	b, c := NewBuilder(t, p)
 	target := rapid.IntRange(p.MinLen, p.MaxLen).Draw(t, "len")
+	// function-first layout (one case in twelve of the profiles with calls): the
+	// program starts with "j Main", a function and unreachable code behind its
+	// return; Main calls it, and the last instruction of the program is a call,
+	// so that the function's jalr — known to the branch target buffer from the
+	// earlier calls — returns to the end of the program
+	fn := ""
+	if (p.W.Call > 0 || p.W.Jump > 0) && rapid.IntRange(0, 11).Draw(t, "fnfirst") == 0 {
+		fn = b.fnFirst()
+	}
 	for b.Len() < target && b.Len() < 240 {
 		b.Construct()
 		if p.MaxDyn > 0 && b.State().Steps > p.MaxDyn {
 			break
 		}
+		if fn != "" && b.depth == 0 && rapid.IntRange(0, 3).Draw(t, "fncall") == 0 {
+			b.emit(ref.Ins{Op: "jal", Rd: 1, Label: fn})
+		}
 	}
-	b.Exit()
+	if fn != "" {
+		b.emit(ref.Ins{Op: "jal", Rd: 1, Label: fn})
+		b.Meta["exit_call"]++
+	} else {
+		b.Exit()
+	}
 	b.Finish(c)
 	return c
+}
+
+// fnFirst emits "j Main; F: body; jalr zero, ra, 0; unreachable code; Main:",
+// optionally a first call, reserves ra for the rest of the program and returns
+// the function's label.
+func (b *Builder) fnFirst() string {
+	main, f := b.label(), b.label()
+	b.emit(ref.Ins{Op: "j", Label: main})
+	b.place(f)
+	b.noDest[1] = true
+	b.depth++
+	for k := rapid.IntRange(1, 3).Draw(b.t, "fnlen"); k > 0; k-- {
+		b.inLoopAtom()
+	}
+	b.emit(ref.Ins{Op: "jalr", Rd: 0, Rs1: 1, Imm: 0})
+	for k := rapid.IntRange(1, 4).Draw(b.t, "fndead"); k > 0; k-- {
+		if b.P.Hostile {
+			b.Hostile(main)
+			b.Meta["hostile"]++
+		} else {
+			b.inLoopAtom()
+		}
+	}
+	b.depth--
+	b.place(main)
+	if rapid.IntRange(0, 4).Draw(b.t, "fncall0") != 0 {
+		b.emit(ref.Ins{Op: "jal", Rd: 1, Label: f})
+	}
+	b.Meta["fnfirst"]++
+	return f
 }
 
 // touchedLines returns the 64-byte lines the program built so far has accessed
@@ -1125,7 +1177,18 @@ func VIProgram(t *rapid.T, p Profile) (*Case, []int) {
 	}
 	target := rapid.IntRange(p.MinLen, p.MaxLen).Draw(t, "len")
 	for b.Len() < target {
-		switch rapid.IntRange(0, 9).Draw(t, "vi") {
+		switch rapid.IntRange(0, 10).Draw(t, "vi") {
+		case 10:
+			// a conditional branch on data registers whose target is the next
+			// instruction: taken or not, the executed path is the same
+			in := ref.Ins{Op: rapid.SampledFrom(condOps).Draw(t, "dcond"), Rs1: anyReg("drs1"), Rs2: anyReg("drs2")}
+			if ref.Shape(in.Op) == ref.ShapeBr1 {
+				in.Rs2 = 0
+			}
+			l := b.label()
+			in.Label = l
+			b.emit(in)
+			b.place(l)
 		case 0, 1, 2:
 			dataAlu()
 		case 3:
@@ -1277,4 +1340,157 @@ func (b *Builder) EarlyRet() {
 	b.emit(ref.Ins{Op: "ret"})
 	b.place(l)
 	b.Meta["earlyret"]++
+}
+
+// Behind emits older memory work that has to wait while a younger control
+// transfer redirects the pipeline: one or two stores make a line A "owned"
+// (Modified in one core on the coherent variants), optionally a line B is read
+// by several loads and then written (an upgrade that invalidates the other
+// sharers), then — behind first-time jumps, which drain the pipeline, so that
+// no conflicting pair is in flight together — a load from a line touched by
+// nothing before (it misses every cache and keeps its unit or core busy for
+// the memory latency), one or two accesses to line A through independent base
+// registers (on MVP-7.1/8 they are routed to the core holding A, which may be
+// the busy one), and a taken branch over a short harmless shadow, a first-time
+// jump, or nothing.
+func (b *Builder) Behind() {
+	if b.depth > 0 {
+		b.inLoopAtom()
+		return
+	}
+	memSize := int32(len(b.Init.Mem))
+	if memSize < 4*64 || !b.Valid() {
+		b.Store()
+		return
+	}
+	lines := memSize / 64
+	touched := b.touchedLines()
+	word := func(line int32, label string) int32 {
+		return line*64 + rapid.Int32Range(0, 15).Draw(b.t, label)*4
+	}
+	drain := func() {
+		if rapid.IntRange(0, 9).Draw(b.t, "bdrain") < 8 {
+			l := b.label()
+			b.emit(ref.Ins{Op: "j", Label: l})
+			b.place(l)
+		}
+	}
+	access := func(ea int32, store bool, width int) {
+		var op string
+		if store {
+			op = storeOps[width]
+		} else {
+			op = loadOps[width]
+		}
+		base, off := b.baseFor(ea)
+		if store {
+			b.emit(ref.Ins{Op: op, Rs2: b.reg("src"), Rs1: base, Imm: off})
+		} else {
+			b.emit(ref.Ins{Op: op, Rd: b.dest("rd"), Rs1: base, Imm: off})
+		}
+	}
+	width := func() int {
+		if b.P.NoSubword {
+			return 0
+		}
+		return rapid.IntRange(0, 2).Draw(b.t, "bwidth")
+	}
+	lineA := rapid.Int32Range(0, lines-1).Draw(b.t, "blineA")
+	lineB := (lineA + 1 + rapid.Int32Range(0, lines-2).Draw(b.t, "blineB")) % lines
+	for k := rapid.IntRange(1, 2).Draw(b.t, "bown"); k > 0; k-- {
+		access(word(lineA, "boff"), true, width())
+	}
+	touched[lineA] = true
+	if rapid.Bool().Draw(b.t, "bshare") {
+		for k := rapid.IntRange(1, 3).Draw(b.t, "breaders"); k > 0; k-- {
+			access(word(lineB, "boff"), false, 0)
+		}
+		drain()
+		access(word(lineB, "boff"), true, width())
+		touched[lineB] = true
+	}
+	drain()
+	// the miss
+	var fresh []int32
+	for l := int32(0); l < lines; l++ {
+		if !touched[l] {
+			fresh = append(fresh, l)
+		}
+	}
+	if len(fresh) > 0 {
+		lineC := fresh[rapid.IntRange(0, len(fresh)-1).Draw(b.t, "blineC")]
+		access(word(lineC, "boff"), false, 0)
+	}
+	for k := rapid.IntRange(1, 2).Draw(b.t, "bwait"); k > 0; k-- {
+		access(word(lineA, "boff"), rapid.IntRange(0, 9).Draw(b.t, "bkind") < 7, width())
+	}
+	switch x := rapid.IntRange(0, 9).Draw(b.t, "bxfer"); {
+	case x < 6:
+		r := b.reg("bcmp")
+		l := b.label()
+		b.emit(ref.Ins{Op: rapid.SampledFrom([]string{"beq", "bge", "bgeu"}).Draw(b.t, "bop"), Rs1: r, Rs2: r, Label: l})
+		for k := rapid.IntRange(1, 2).Draw(b.t, "bshadow"); k > 0; k-- {
+			if rapid.Bool().Draw(b.t, "bnop") {
+				b.emit(ref.Ins{Op: "nop"})
+			} else {
+				b.Alu()
+			}
+		}
+		b.place(l)
+	case x < 9:
+		l := b.label()
+		b.emit(ref.Ins{Op: "j", Label: l})
+		b.place(l)
+	}
+	b.Meta["behind"]++
+}
+
+// JumpChainProgram draws a program of small blocks (0..2 ALU instructions and
+// a jump) laid out in one order, separated by never-executed padding, and
+// visited in another order: instruction fetch keeps leaving whatever window or
+// line an instruction cache holds, forwards and backwards.
+func JumpChainProgram(t *rapid.T, p Profile) *Case {
+	b, c := NewBuilder(t, p)
+	n := rapid.IntRange(3, 14).Draw(t, "blocks")
+	bodyMax := rapid.IntRange(0, 2).Draw(t, "bodymax")
+	padMax := rapid.SampledFrom([]int{0, 3, 18, 30}).Draw(t, "padmax")
+	// visit order: a permutation drawn by repeated selection
+	layout := make([]int, n) // position in the text -> block number in visit order
+	left := make([]int, n)
+	for i := range left {
+		left[i] = i
+	}
+	for i := 0; i < n; i++ {
+		k := rapid.IntRange(0, len(left)-1).Draw(t, "perm")
+		layout[i] = left[k]
+		left = append(left[:k], left[k+1:]...)
+	}
+	labels := make([]string, n+1)
+	for i := range labels {
+		labels[i] = b.label()
+	}
+	// the entry: jump to the first block visited unless it is laid out first
+	if layout[0] != 0 {
+		b.emit(ref.Ins{Op: "j", Label: labels[0]})
+	}
+	b.depth++ // blocks are not laid out in execution order: state-agnostic code only
+	for pos := 0; pos < n; pos++ {
+		blk := layout[pos]
+		for k := rapid.IntRange(0, padMax).Draw(t, "pad"); k > 0 && pos > 0; k-- {
+			b.emit(ref.Ins{Op: "nop"})
+		}
+		b.place(labels[blk])
+		for k := rapid.IntRange(0, bodyMax).Draw(t, "body"); k > 0; k-- {
+			b.Alu()
+		}
+		if blk == n-1 {
+			b.emit(ref.Ins{Op: "ret"})
+		} else {
+			b.emit(ref.Ins{Op: "j", Label: labels[blk+1]})
+		}
+	}
+	b.depth--
+	b.Meta["jumpchain"]++
+	b.Finish(c)
+	return c
 }
